@@ -47,6 +47,16 @@ def wrappers(ctx, ld):
                 ok = ok and pseudo(c.args[-1]) == it
         run.check(ok, 'WRAP', where(repo, lp), pr.qualname, ', '.join('%s=%s' % (k.split('.')[1], v) for k, v in sorted(flags.items())),
                   'wrappers applied %s but options say %s' % (applied, want), path=p.describe())
+        # order of the stages on this path: missing-value extraction -> cast -> strip -> limit.  The limiter counts what load
+        # *yields*: it must be the outermost stage (a caster with a drop policy removes rows; counting before it lets dropped
+        # rows use up the limit)
+        pos = {a: i for i, a in enumerate(applied)}
+        order_ok = ('limiter' not in pos or pos['limiter'] == len(applied) - 1) and \
+            ('stripper' not in pos or 'caster' not in pos or pos['stripper'] > pos['caster']) and \
+            ('missing_values_extractor' not in pos or 'caster' not in pos or pos['missing_values_extractor'] < pos['caster'])
+        run.check(order_ok, 'WRAP', where(repo, lp), pr.qualname, 'stage order: ' + ' -> '.join(applied),
+                  'the row stages of load are not applied in the order extract-missing, cast, strip, limit: limit_rows no longer '
+                  'counts the rows that are yielded (rows dropped by the cast policy use up the limit), or markers reach the caster')
     run.floor('WRAP', n, 2, 'option valuations')
     # order: missing values are extracted before casting (they would fail the cast), stripping after
     order = [c.func.attr for c in ast.walk(lp) if isinstance(c, ast.Call) and isinstance(c.func, ast.Attribute)
